@@ -23,6 +23,7 @@ func Subs(prop string) []Sub { return table[prop] }
 func init() {
 	add("C01", Sub{Name: "C01/enum", Mode: "free", QuickS: 150, ThorS: 1500})
 	add("C14", Sub{Name: "C14/sched", Mode: "controlled", QuickS: 120, ThorS: 1500})
+	add("C07", Sub{Name: "C07/enum", Mode: "free", QuickS: 150, ThorS: 1500})
 	add("C11", Sub{Name: "C11/sched", Mode: "controlled", QuickS: 100, ThorS: 1500})
 }
 
